@@ -395,3 +395,10 @@ func zzH_C03_set_bft_parameters_effect(t *zzT) {
 
 //zz:opt loop=24
 func zzH_C02_set_bft_parameters_effect(t *zzT) { zzH_C03_set_bft_parameters_effect(t) }
+
+// C01 "no … weight distribution or validator-set change makes two nodes finalize different blocks": the votes
+// are counted with the stored parameters, so a reported change of weights must reach the store (same obligation;
+// seed C01-7 made BFTValidators.Equal ignore the weights: a weight-only update was dropped as "nothing changed").
+//
+//zz:opt loop=24
+func zzH_C01_set_bft_parameters_effect(t *zzT) { zzH_C03_set_bft_parameters_effect(t) }
